@@ -813,8 +813,17 @@ def _inline_new_single_call_helpers(tree: ast.AST, ref_private: set) -> int:
                             binding[k.arg] = k.value
                         for name, d in zip(params[len(params) - len(a.defaults):], a.defaults):
                             binding.setdefault(name, d)
-                        if set(binding) != set(params) or len(call.args) > len(params) or not all(simple(v) for v in binding.values()):
+                        if set(binding) != set(params) or len(call.args) > len(params):
                             return
+                        # an argument that is not a plain name / constant / attribute chain may only replace a parameter the helper reads
+                        # exactly once (outside nested loops it is then still evaluated once)
+                        for pn_, v_ in binding.items():
+                            if not simple(v_):
+                                loads = [x for x in ast.walk(h) if isinstance(x, ast.Name) and x.id == pn_ and isinstance(x.ctx, ast.Load)]
+                                in_loop_body = any(isinstance(lp, (ast.For, ast.While)) and any(y is loads[0] for b_ in lp.body for y in ast.walk(b_))
+                                                   for lp in ast.walk(h)) if len(loads) == 1 else True
+                                if len(loads) != 1 or in_loop_body:
+                                    return
                         if isinstance(st, ast.Expr) and tail_value is not None:
                             return
                         if isinstance(st, (ast.Assign, ast.AnnAssign, ast.Return)) and tail_value is None:
@@ -835,8 +844,21 @@ def _inline_new_single_call_helpers(tree: ast.AST, ref_private: set) -> int:
                             in_loop = any(isinstance(x, (ast.For, ast.While)) and any(y is st for y in ast.walk(x)) for x in ast.walk(fn))
                             own_t = {x.id for t_ in (st.targets if isinstance(st, ast.Assign) else ([st.target] if isinstance(st, ast.AnnAssign) else []))
                                      for x in ast.walk(t_) if isinstance(x, ast.Name)}
-                            later = {x.id for x in ast.walk(fn) if isinstance(x, ast.Name) and isinstance(x.ctx, ast.Load)
-                                     and getattr(x, "lineno", 0) > getattr(st, "end_lineno", getattr(st, "lineno", 0))}
+                            later = set()
+
+                            def _after(node, target):
+                                """True if `target` lies inside `node`; collects the names read by what executes after it"""
+                                for fld_ in ("body", "orelse", "finalbody", "handlers"):
+                                    blk_ = getattr(node, fld_, None)
+                                    if not isinstance(blk_, list):
+                                        continue
+                                    for i_, ch in enumerate(blk_):
+                                        if ch is target or _after(ch, target):
+                                            for nxt in blk_[i_ + 1:]:
+                                                later.update(x.id for x in ast.walk(nxt) if isinstance(x, ast.Name) and isinstance(x.ctx, ast.Load))
+                                            return True
+                                return False
+                            _after(fn, st)
                             if in_loop or ((hl & used) - own_t) & later:
                                 return
                         new = [_SubstNames(binding).visit(_copy.deepcopy(b)) for b in body]
@@ -845,7 +867,8 @@ def _inline_new_single_call_helpers(tree: ast.AST, ref_private: set) -> int:
                             if isinstance(st, ast.Return):
                                 new.append(ast.copy_location(ast.Return(value=tv), st))
                             elif isinstance(st, ast.Assign):
-                                new.append(ast.copy_location(ast.Assign(targets=st.targets, value=tv), st))
+                                if not (len(st.targets) == 1 and isinstance(st.targets[0], ast.Name) and isinstance(tv, ast.Name) and tv.id == st.targets[0].id):
+                                    new.append(ast.copy_location(ast.Assign(targets=st.targets, value=tv), st))
                             else:
                                 new.append(ast.copy_location(ast.AnnAssign(target=st.target, annotation=st.annotation, value=tv, simple=st.simple), st))
                         plans.append((blk, st, new or [ast.copy_location(ast.Pass(), st)]))
